@@ -60,6 +60,7 @@ def ob_last_slice_prune(run, oid):
 
 
 def check(run):
+    ob_slice_outcomes(run, "O13.7")
     D.ob_state_mutations(run, "O13.6", ['consensus::blockstore::slot_block_data::BlockData', 'consensus::blockstore::slot_block_data::SlotBlockData', 'consensus::blockstore::BlockstoreImpl'], 'completed / last_slice / commitment_cache / misbehaviour flags are once-only records: clearing them re-announces blocks or hides equivocation')
     ob_last_slice_prune(run, "O13.1b")
     from . import C12
@@ -280,3 +281,51 @@ def check(run):
         ok_p = any(K.mentions_call(par, s) for s in src) and K.is_field(par, "parent", "BlockInfo")
         o.check(ok_b, key + "|block-id", "block id = (slot, block_info.hash) of the BlockInfo the blockstore returned", c.span, {"arg": mir.show(bid)[:200]})
         o.check(ok_p, key + "|parent", "parent = block_info.parent of the same BlockInfo", c.span, {"arg": mir.show(par)[:200]})
+
+
+def ob_slice_outcomes(run, oid):
+    """try_reconstruct_slice: which decoding errors merely wait for more shreds"""
+    prog = run.program("lib")
+    o = run.ob(oid, "try_reconstruct_slice waits (NoAction) only for NotEnoughShreds; every other decoding error is an Error (=> invalid block announced)",
+               "treating a decoding error of leader-signed content (invalid layout, bad Merkle root, bad padding, oversize) as 'wait for more' leaves the slot silent for ever: "
+               "no invalid-block announcement, the leader is never flagged", floor=2)
+    b = prog.body(BD + "::try_reconstruct_slice")
+    if b is None:
+        o.missing("BlockData::try_reconstruct_slice")
+        return
+    RSR = SBD + "ReconstructSliceResult"
+    waits = set()
+    n = 0
+    for (bb, rv, sp, dst) in b.aggregates(RSR, "NoAction"):
+        if dst["l"] != 0:
+            continue
+        for a in G.guard_atoms(b, bb, prog):
+            if a[0] == "variant" and K.mentions_call(a[1][0], "deshred"):
+                waits |= set(a[1][1])
+                n += 1
+            if a[0] == "is_ok" and a[2] is False and K.mentions_call(a[1][0], "deshred") and not any(
+                    x[0] == "variant" and K.mentions_call(x[1][0], "deshred") for x in G.guard_atoms(b, bb, prog)):
+                waits.add("<any error>")
+                n += 1
+    o.check(n >= 1 and waits == {"NotEnoughShreds"}, "try_reconstruct_slice|NoAction-only-for-NotEnoughShreds", "the only deshred error answered with NoAction is NotEnoughShreds", b.span,
+            {"errors_answered_with_NoAction": sorted(waits)})
+    err_bbs = set(bb for (bb, rv, sp, dst) in b.aggregates(RSR, "Error") if dst["l"] == 0)
+    other_bbs = set(bb for (bb, rv, sp, dst) in b.aggregates(RSR) if dst["l"] == 0 and rv.get("variant") != "Error")
+    es = b.edges()
+    fall = False
+    bad = []
+    for (s_, dterm, dty) in b.switches():
+        sa = G.switch_atoms(b, s_, prog)
+        if not any(a[0] == "variant" and K.mentions_call(a[1][0], "deshred") and "NotEnoughShreds" in a[1][1] for atoms in sa.values() for a in atoms):
+            continue
+        for v, atoms in sa.items():
+            vs = [a for a in atoms if a[0] == "variant" and K.mentions_call(a[1][0], "deshred")]
+            if vs and set(vs[0][1][1]) and not (set(vs[0][1][1]) <= {"NotEnoughShreds"}):
+                for e in es:
+                    if e[0] == s_ and e[2] == ("sw", v):
+                        R = b.reachable(e[1])
+                        if (R & err_bbs) and not (R & other_bbs):
+                            fall = True
+                        else:
+                            bad.append(sorted(vs[0][1][1]))
+    o.check(fall and not bad, "try_reconstruct_slice|other-errors-are-Error", "every other deshred error leads to ReconstructSliceResult::Error and to nothing else", b.span, {"not_error": bad})
